@@ -649,7 +649,56 @@ def check_class_tables_are_the_builders(ctx, rule='R13-hooks'):
         ctx.holds(rule, pb.methods.get('add_sync_descriptor_class_methods') or (pb.file, 'PacketClassBuilder'), 'class accessors return the builder\'s own lists', 'no table of a class lives in the user\'s configuration dict', 0, clause='c')
 
 
+def check_protocol_methods_keep_no_state_on_the_descriptor(ctx, rule='R13-typestate'):
+    """Round 9.  the descriptor object is one per class, shared by every packet of the class:
+    ``__get__`` / ``__set__`` / ``__delete__`` / the sync hook, and any decorator wrapped around
+    them, keep what they know in the packet, never in the descriptor.  A wrapper that writes an
+    attribute of its first argument (a "running" flag, a memo) makes the read of one packet
+    depend on what another packet of the class is doing"""
+    repo = ctx.repo
+    au = repo.cls('Auto')
+    for mname in ('__get__', '__set__', '__delete__', 'sync_before_pack'):
+        fi = au.methods.get(mname)
+        if fi is None:
+            continue
+        for dec in fi.node.decorator_list:
+            f = dec.func if isinstance(dec, ast.Call) else dec
+            dn = f.id if isinstance(f, ast.Name) else f.attr if isinstance(f, ast.Attribute) else None
+            target = next((x for (m_, n_), x in repo.module_funcs.items() if n_ == dn), None)
+            st = 'Auto.%s decorated with %s' % (mname, unparse(dec)[:60])
+            if target is None:
+                ctx.undecided(rule, fi, st, 'the decorator is not a function of the package: cannot see what it keeps on the descriptor', fi.node.lineno, clause='a')
+                continue
+            writes = []
+            for inner in ast.walk(target.node):
+                if not isinstance(inner, ast.FunctionDef) or inner is target.node or not inner.args.args:
+                    continue
+                first = inner.args.args[0].arg
+                for x in ast.walk(inner):
+                    if isinstance(x, ast.Call) and isinstance(x.func, ast.Name) and x.func.id in ('setattr', 'delattr') and x.args and isinstance(x.args[0], ast.Name) and x.args[0].id == first:
+                        writes.append(x)
+                    elif isinstance(x, ast.Attribute) and not isinstance(x.ctx, ast.Load) and isinstance(x.value, ast.Name) and x.value.id == first:
+                        writes.append(x)
+                    elif isinstance(x, ast.Attribute) and x.attr == '__dict__' and isinstance(x.value, ast.Name) and x.value.id == first:
+                        writes.append(x)
+            tests = []
+            for inner in ast.walk(target.node):
+                if isinstance(inner, (ast.If, ast.IfExp, ast.While)):
+                    for x in ast.walk(inner.test):
+                        if isinstance(x, ast.Call) and isinstance(x.func, ast.Name) and x.func.id in ('getattr', 'hasattr') and x.args and isinstance(x.args[0], ast.Name):
+                            tests.append(x)
+                        elif isinstance(x, ast.Attribute) and isinstance(x.value, ast.Name) and isinstance(x.ctx, ast.Load):
+                            tests.append(x)
+            if writes and not tests:
+                ctx.undecided(rule, fi, st + ': ' + unparse(writes[0])[:70], 'the wrapper writes on the shared descriptor object; cannot see whether what it writes decides anything', fi.node.lineno, clause='a')
+            elif writes:
+                ctx.violation(rule, fi, st + ': ' + unparse(writes[0])[:70], 'the wrapper keeps state in the descriptor object, which all packets of the class share: while the call for one packet runs (or after it), the same attribute of another packet reads something else than its own forced / computed value', fi.node.lineno, clause='a', witness=True)
+            else:
+                ctx.holds(rule, fi, st, 'the wrapper writes nothing on the descriptor', fi.node.lineno, clause='a')
+
+
 def check(ctx):
+    check_protocol_methods_keep_no_state_on_the_descriptor(ctx)
     check_described_names(ctx)
     check_auto(ctx)
     check_copies_keep_state(ctx)
